@@ -20,7 +20,8 @@ GSpec == GInit /\ [][GNext]_ggvars
 
 REmit == CSVWrite("%1$s",
     << IF mode = "parse" THEN ToJson([mode |-> mode, shape |-> item[1], def |-> item[2],
-                                      linux |-> Parse(item[1], item[2], TRUE), other |-> Parse(item[1], item[2], FALSE)])
+                                      linux |-> Parse(item[1], item[2], TRUE), other |-> Parse(item[1], item[2], FALSE),
+                                      doc |-> ParseDoc(item[1], item[2], TRUE)])
        ELSE IF mode = "cmp" THEN ToJson([mode |-> mode, x |-> item[1], y |-> item[2], sign |-> Cmp(item[1], item[2])])
        ELSE ToJson([mode |-> mode, steps |-> rhist]) >>,
     "sysresolv_vectors.ndjson")
